@@ -12,6 +12,32 @@ COMMON_NOTE = ("Trusted base: Lean 4.33 kernel; axioms ⊆ {propext, Classical.c
                "by exact-float inputs or bounded by a tolerance. ")
 
 CLAIMS = {
+    'C01': dict(
+        text="Theorems (Props/C01.lean, unbounded): the executable check wfB decides the rank-form well-formedness WF (unique non-negative ids, "
+             "parents present, acyclic) exactly; labelsOKB means 'label = labelOf(child count, is-root)'; navis' classify rule computes that "
+             "label for every node of every table; subset / reroot / cut (both pieces) / reclassify preserve WF for every "
+             "table and argument, and by list induction every finite history of those operations does (remove_nodes / downsample: modelled and "
+             "diffed, their WF theorems are in progress). Tie: random operation histories (7 modelled + "
+             "19 watched operations, in place or on copies) on real TreeNeurons over generated forests (13 shapes × 6 labelings × 3 row "
+             "orders); after every step the implementation's table is diffed against Lean applyOp on the implementation's own pre-state "
+             "and the proved-sound Lean checkers wfB/labelsOKB are evaluated on the implementation's table, plus no-NaN and soma-exists.",
+        note="Watched-only operations (prune_*, heal, stitch, resample, insert_nodes, smoothing, arithmetic, copy, pickle, rewire, …) are "
+             "covered by the run-time oracle, not by a theorem about their body. Construction from networkx graphs uses nx.predecessor "
+             "(external). Coordinates' absence of NaN is an oracle clause.",
+        technique="Lean 4 proof (rank-form invariant preserved by every operation, list induction over histories) + per-step correspondence",
+        ref="§5 C01"),
+    'C10': dict(
+        text="Theorems (Props/C10.lean, unbounded): subset returns exactly the requested present ids in table order, keeps the original "
+             "parent link iff both ends survive (new root otherwise) with unchanged coordinates, and yields a well-formed, correctly "
+             "labelled forest; reroot keeps the node set and yields a well-formed forest for any target sequence (path reversal creates no "
+             "cycle); both pieces of a cut are well-formed and share exactly the cut node. Tie: navis' node table after "
+             "reroot/cut/multi-cut/subset (list, set, array, mask, graph, DataFrame; prevent_fragments) is diffed against the Lean model "
+             "on generated forests; the oracle evaluates every clause of the property directly on navis' output (node set, undirected "
+             "edges, coordinates, cable length, root, untouched fragments, distal/proximal sets, edge partition, connectors/tags).",
+        note="prevent_fragments minimality is decided by the run-time oracle against an independent lowest-common-ancestor computation, not by a theorem. "
+             "Back-end variants are exercised by C04.",
+        technique="Lean 4 proof (rank-form WF, exact subset/reroot/cut characterisation) + table-level correspondence",
+        ref="§5 C10"),
     'C09': dict(
         text="Theorems (Props/C09.lean, unbounded): array_split chunks concatenate to range n; for every |q|,|t|, every rows×cols ≥ 1 and "
              "every permutation of job completion the assembled matrix is exactly f(r,c) in every cell (nblast job-local indices) and "
